@@ -217,6 +217,7 @@ fn main() {
     macro_rules! add {
         ($U:ty, $I:ty) => {
             jobs_for::<$U, $I>(&mut jobs);
+            checks::siblings::topic_jobs::<$U, $I>(&mut jobs, checks::siblings::Group::Cmp, 150, FACTOR);
         };
     }
     for_all_cfgs!(add);
@@ -224,7 +225,7 @@ fn main() {
     runner::main(
         Property {
             id: "C07",
-            rule: "Pairs are built for comparison: independent structured patterns, equal values, values differing in exactly one digit j (every j), sharing the top j digits, same bits with opposite top bit, a and a+-1/+-2, zero top digit with arbitrary lower digits; clamp triples with bounds sorted on the reference side. Oracle: the order of the denoted reference integers (two's complement for signed) for ==, !=, <, <=, >, >=, cmp, partial_cmp, min, max, clamp (inherent const twins and Ord/PartialOrd trait methods), equality iff identical digit arrays, equal hashes for the same value reached by different computations (reload, (a+b)-b, !!a, (a^b)^b, parse(print(a))), signum/is_positive/is_negative from the sign of the reference value. NON-TRIVIAL: unequal values sharing >= 1 leading digit, or differing signs, or equal values; clamp: value outside the bounds; sign predicates: negative, zero, or positive with zero top digit. distinct = distinct (profile, job, inputs) by 64-bit hash. 8-bit configuration enumerated completely. A deterministic SWEEP additionally enumerates, per configuration, position-specific inputs (2^k - 1, 2^k, 2^k + 1 with their negations and complements; carry / borrow chains and power-of-two products ending at every bit position k; every shift / rotate amount; every bit index; every float exponent) - all positions on types up to 1088 bits, a sparse selection of a few hundred positions on wider types in the quick tier, all positions in the thorough tier.",
+            rule: "Pairs are built for comparison: independent structured patterns, equal values, values differing in exactly one digit j (every j), sharing the top j digits, same bits with opposite top bit, a and a+-1/+-2, zero top digit with arbitrary lower digits; clamp triples with bounds sorted on the reference side. Oracle: the order of the denoted reference integers (two's complement for signed) for ==, !=, <, <=, >, >=, cmp, partial_cmp, min, max, clamp (inherent const twins and Ord/PartialOrd trait methods), equality iff identical digit arrays, equal hashes for the same value reached by different computations (reload, (a+b)-b, !!a, (a^b)^b, parse(print(a))), signum/is_positive/is_negative from the sign of the reference value. NON-TRIVIAL: unequal values sharing >= 1 leading digit, or differing signs, or equal values; clamp: value outside the bounds; sign predicates: negative, zero, or positive with zero top digit. distinct = distinct (profile, job, inputs) by 64-bit hash. 8-bit configuration enumerated completely. A deterministic SWEEP additionally enumerates, per configuration, position-specific inputs (2^k - 1, 2^k, 2^k + 1 with their negations and complements; carry / borrow chains and power-of-two products ending at every bit position k; every shift / rotate amount; every bit index; every float exponent) - all positions on types up to 1088 bits, a sparse selection of a few hundred positions on wider types in the quick tier, all positions in the thorough tier. SIBLINGS job (per configuration): the entry points of this property's own operations that other properties anchor - the six operand forms of the std operators (a op b, &a op b, a op &b, &a op &b, a op= b, a op= &b; for shifts every primitive and bnum-typed amount type), Sum/Product, and the num_traits forwarders - are compared with the inherent method / const twin (same value, same panic outcome), so that a regression confined to one rarely used entry point is reported by the check of the operation it belongs to as well as by C17/C18.",
             assumptions: &[
                 "digits()/from_digits()/to_bits()/from_bits() are the trusted observation channel",
                 "hash inequality of unequal values and clamp with lo > hi (asserts) are outside the property",
